@@ -1,5 +1,6 @@
 CONSTANTS
   Grace = 2
+  MaxAge = 100
   T = 3
   SessLen = 3
   ApiLen = 2
